@@ -76,8 +76,8 @@ def plan(ctx):
     """a case is a function of (kind, index, seed) only: the larger generators of the thorough tier have their own
     kinds (`stdL`, `covL`), so a replay does not depend on VERIF_TIER"""
     if ctx.thorough:
-        return ([("std", i) for i in range(1500)] + [("stdL", i) for i in range(1000)] + [("cov", i) for i in range(600)]
-                + [("covL", i) for i in range(300)] + [("bad", i) for i in range(60)])
+        return ([("std", i) for i in range(8000)] + [("stdL", i) for i in range(5000)] + [("cov", i) for i in range(3000)]
+                + [("covL", i) for i in range(1500)] + [("bad", i) for i in range(120)])
     return ([("std", i) for i in range(260)] + [("cov", i) for i in range(110)] + [("bad", i) for i in range(14)])
 
 
@@ -787,7 +787,7 @@ def post(ctx):
         "reference epoch of a slice (counted, not compared); copy()/slicing of data holding non-finite *times* "
         "(astropy Time cannot represent them: RVData.t raises) are not exercised")
     c = ctx.counters
-    q = 1 if not ctx.thorough else 4
+    q = 1 if not ctx.thorough else 20
     ctx.require("construction cases (1-D errors)", c["init:std"], 200 * q)
     ctx.require("construction cases (covariance)", c["init:cov"], 80 * q)
     ctx.require("cases with tied times", c["ties:present"], 80 * q)
